@@ -319,6 +319,15 @@ def account(ctx, case):
                  sample={"ids": case["ids"], "order": order, "text": G.text_of(g, order)[:700]})
 
 
+def minimal_hostile(gene_id, flavour):
+    def node(i, nid, ft, parents):
+        return {"id": nid, "type": ft, "seqid": "chr1", "start": 1, "end": 9, "strand": "+", "layer": i, "parents": parents,
+                "style": "comma", "idpos": "first", "name": None}
+    g = {"nodes": [node(0, gene_id, "gene", []), node(1, "b", "mRNA", [gene_id]), node(2, "c", "exon", ["b"])], "edge": "pct"}
+    return {"kind": "graph", "ids": "hostile", "flavours": [flavour], "graph": g, "qseed": 1, "orders": [[0, 1, 2]],
+            "nqueries": 2, "db": "memory", "input": "path"}
+
+
 def run(ctx):
     rng = ctx.rng
     thorough = ctx.tier == "thorough"
@@ -335,7 +344,13 @@ def run(ctx):
             ctx.classes["graphs imported under every permutation of their lines"] += 1
         execute(ctx, case)
         account(ctx, case)
-    # 2. hostile ids (separate class; DESIGN F-C02-1)
+    # 2. hostile ids (separate class; DESIGN F-C02-1): two minimal chains gene -> mRNA -> exon first, then random graphs
+    if ctx.shard == 0:
+        for gid, fl in ((" a", "leading blank"), ("a\tx", "escaped TAB inside")):
+            case = minimal_hostile(gid, fl)
+            ctx.classes["hostile id: " + fl] += 1
+            execute(ctx, case)
+            account(ctx, case)
     for _ in range(ctx.budget(300, 3200)):
         g = G.graph(rng, max_nodes=8)
         flavours = G.make_hostile(rng, g)
